@@ -3,7 +3,8 @@
 Space (DESIGN 3.C03): a catalogue of structured targets (24 one-qubit
 Cliffords, T, every 2-qubit permutation matrix, sign/phase diagonals, all
 products of <= 2 generators of {H(x)I, I(x)H, S(x)I, CNOT, CZ, SWAP},
-identities, near-identities, Toffoli/Fredkin/QFT, qutrit shift / clock /
+identities, near-identities, Toffoli/Fredkin/QFT, every relabelling of three
+qubit wires (alone and after a CNOT; level 4), qutrit shift / clock /
 Fourier / CSUM) plus a few seeded generic targets, states (all basis states,
 Bell/GHZ/W/|+..+>, generic) and state systems (first k columns of each
 catalogue unitary, k = 1..dim) x entangler {CNOT, CZ, ISWAP} x level, and
@@ -109,6 +110,11 @@ def enumerate_cases(ctx: Ctx) -> list:
             cases.append(mk(U(g), m(2, K.GS_ZX), 1))
         cases.append(mk(U(['identity', 3, 2]), None, 1))
         cases.append(mk(U(['toffoli']), None, 1))
+        # level 4 = permutation-aware synthesis: wire relabellings whose
+        # cheapest output permutation is a 3-cycle (not an involution)
+        for g in (['qperm', [1, 2, 0]], ['qperm', [2, 0, 1]],
+                  ['qperm_cx', [1, 2, 0]]):
+            cases.append(mk(U(g), None, 4))
         for g in C['uq']:
             cases.append(mk(U(g), None, 1))
         for g in C['uq'][:5]:
@@ -174,6 +180,11 @@ def enumerate_cases(ctx: Ctx) -> list:
             cases.append(mk(U(g), None, 2))
             cases.append(mk(U(g), m(3, ent['cz']), 1))
         cases.append(mk(U(['toffoli']), None, 3))
+        for p3 in it.permutations(range(3)):
+            for kind in ('qperm', 'qperm_cx'):
+                cases.append(mk(U([kind, list(p3)]), None, 4))
+                cases.append(mk(U([kind, list(p3)]), m(3, ent['cz']), 4))
+            cases.append(mk(U(['qperm_cx', list(p3)]), None, 2))
         cases.append(mk(U(['identity', 3, 2]), None, 3))
         cases.append(mk(U(['identity', 3, 2]), None, 4))
         for g in C['u4'][:1] + C['u4'][2:]:
